@@ -142,7 +142,16 @@ def appropriate_input(rng, kind):
 def scalar_case(kind, x, pre=None, with_pre=False):
     """`pre` (when with_pre): a set() performed on the same element before the observed one; the
     outcome of a set() must not depend on it."""
-    c = {"mode": "scalar", "kind": kind, "x": S.py_to_nat(x), "conv": S.conv_entries(kind, x)}
+    c = {"mode": "scalar", "kind": kind, "x": S.py_to_nat(x)}
+    if S.is_exotic(x):
+        # a native of an unusual type: the Lean model (plain natives only) is given the plain native that the
+        # kind's documented treatment cannot tell from x, if there is one (else: real code + oracle only)
+        p = pick_projection(kind, x)
+        if p is not _NOPROJ:
+            c["proj"] = S.py_to_nat(p)
+        c["conv"] = S.conv_entries(kind, p) if p is not _NOPROJ else []
+    else:
+        c["conv"] = S.conv_entries(kind, x)
     if with_pre:
         c["pre"] = S.py_to_nat(pre)
         c["has_pre"] = True
@@ -170,7 +179,7 @@ class _Recorder:
 
     def __call__(self, sender, adapted=None, **kw):
         try:
-            val = S.py_to_nat(sender.value, full=False) if not _is_container(sender) else None
+            val = S.py_to_nat(S.model_view(sender.value), full=False) if not _is_container(sender) else None
             u = sender.u if not _is_container(sender) else None
         except Exception as e:  # noqa: BLE001
             val, u = {"t": "raised", "v": type(e).__name__}, None
@@ -224,7 +233,8 @@ def observe_set(el, x):
     return flag, exc, rec.events
 
 
-def scalar_obs(el, x):
+def scalar_obs(el, x, proj=None):
+    """`proj` (JSON): the plain native standing for an exotic x in the model's input (shown as `raw`)."""
     flag, exc, events = observe_set(el, x)
     if exc:
         return {"exc": exc, "flag": None, "value": None, "u": None, "raw": None, "signals": None}, events
@@ -233,7 +243,8 @@ def scalar_obs(el, x):
             return dict(val, v=S.cps(val["v"]))
         return val
     own = [[adapted, {"v": outform(val), "u": None if u is None else S.cps(u)}] for sender, adapted, val, u in events if sender is el]
-    return {"exc": None, "flag": flag, "value": S.out_nat(el.value), "u": S.cps(el.u), "raw": S.out_nat(el.raw), "signals": own,
+    raw = S.out_nat(S.nat_to_py(proj)) if (proj is not None and el.raw is x) else S.out_nat(S.model_view(el.raw))
+    return {"exc": None, "flag": flag, "value": S.out_nat(S.model_view(el.value)), "u": S.cps(el.u), "raw": raw, "signals": own,
             "_foreign_signals": sum(1 for e in events if e[0] is not el)}, events
 
 
@@ -295,8 +306,8 @@ def truncated_temporal(kind, x):
     bk = S.base_kind(kind)["k"]
     if bk == "date" and isinstance(x, datetime.datetime):
         return datetime.date(x.year, x.month, x.day)
-    if bk == "time" and isinstance(x, datetime.time) and x.microsecond:
-        return x.replace(microsecond=0)
+    if bk == "time" and isinstance(x, datetime.time) and (x.microsecond or x.tzinfo is not None):
+        return x.replace(microsecond=0, tzinfo=None)      # the text form has neither microseconds nor an offset
     if bk == "datetime" and isinstance(x, datetime.datetime) and x.microsecond:
         return x.replace(microsecond=0)
     return None
@@ -306,7 +317,7 @@ def inexact_temporal(kind, x):
     bk = S.base_kind(kind)["k"]
     if bk == "date" and isinstance(x, datetime.datetime):
         return True
-    if bk in ("time", "datetime") and isinstance(x, (datetime.time, datetime.datetime)) and x.microsecond:
+    if bk in ("time", "datetime") and isinstance(x, (datetime.time, datetime.datetime)) and (x.microsecond or x.tzinfo is not None):
         return True
     return False
 
@@ -318,6 +329,41 @@ def inexact_temporal(kind, x):
 
 class _Unadaptable(Exception):
     pass
+
+
+class _Undetermined(Exception):
+    """The documentation of the kind does not say what happens to this input: nothing is asserted about the
+    flag / value / text of such a set() (the coherence clauses - never raises, signal, re-set - still are)."""
+
+
+_NOPROJ = object()
+
+
+def _content(x):
+    """The characters of a text (also of an instance of a str subclass, whatever its __str__ shows)."""
+    return str.__str__(x)
+
+
+def _textlike(x):
+    """Text-like objects that are not `str` instances: the documentation of Boolean ('if value is text') and
+    Temporal ('if a string') does not say whether they count as text."""
+    import collections
+    return type(x) in (collections.UserString, bytes, bytearray)
+
+
+def pick_projection(kind, x):
+    try:
+        want = ref_set(kind, x)
+    except (_Undetermined, ValueError):
+        return _NOPROJ
+    for p in S.projections(kind, x):
+        try:
+            got = ref_set(kind, p)
+        except (_Undetermined, ValueError):
+            continue
+        if got[0] is want[0] and _same(S.model_view(got[1]), S.model_view(want[1])) and _content(got[2]) == _content(want[2]):
+            return p
+    return _NOPROJ
 
 
 _TEMPORAL = {
@@ -346,12 +392,14 @@ def ref_adapt(kind, x):
     if x is None:
         return None
     if k == "string":
-        t = x if isinstance(x, str) else str(x)
+        # "coerced with str() and stripped if strip"; a str instance (of whatever subclass) is text already
+        t = _content(x) if isinstance(x, str) else str(x)
         return t.strip() if kind["strip"] else t
     if k in ("integer", "float", "decimal"):
+        # "attempt to convert value using type_": an instance of type_ (exactly), or unadaptable
         ty = {"integer": int, "float": float, "decimal": decimal.Decimal}[k]
         if isinstance(x, str):
-            x = x.strip()
+            x = _content(x).strip()
         try:
             v = ty(x)
         except (ValueError, TypeError, ArithmeticError):
@@ -365,8 +413,11 @@ def ref_adapt(kind, x):
                 raise _Unadaptable()
         return v
     if k == "boolean":
+        if _textlike(x):
+            raise _Undetermined()
         if not isinstance(x, str):
             return bool(x)
+        x = _content(x)
         if x == kind["true"] or x in kind["tsyn"]:
             return True
         if x == kind["false"] or x in kind["fsyn"]:
@@ -374,9 +425,11 @@ def ref_adapt(kind, x):
         raise _Unadaptable()
     ty, rx, _, _ = _TEMPORAL[k]
     if isinstance(x, ty):
-        return x
+        return x                 # "if value is an instance of type_, returns it unchanged" (subclass instances too)
+    if _textlike(x):
+        raise _Undetermined()
     if isinstance(x, str):
-        t = x.strip() if kind["strip"] else x
+        t = _content(x).strip() if kind["strip"] else _content(x)
         m = rx.match(t)
         if not m:
             raise _Unadaptable()
@@ -394,7 +447,7 @@ def ref_serialize(kind, v):
     if k == "constrained":
         return ref_serialize(kind["child"], v)
     if k == "string":
-        t = v if isinstance(v, str) else str(v)
+        t = _content(v) if isinstance(v, str) else str(v)
         return t.strip() if kind["strip"] else t
     if k in ("integer", "float", "decimal"):
         ty = {"integer": int, "float": float, "decimal": decimal.Decimal}[k]
@@ -417,7 +470,7 @@ def ref_set(kind, x):
     try:
         v = ref_adapt(kind, x)
     except _Unadaptable:
-        return False, None, ("" if x is None else x if isinstance(x, str) else str(x))
+        return False, None, ("" if x is None else _content(x) if isinstance(x, str) else str(x))
     return True, v, ("" if v is None else ref_serialize(kind, v))
 
 
@@ -912,12 +965,33 @@ class C04(Property):
         "float and decimal.Decimal are opaque: float()/Decimal(), '%f', comparison with zero, bool(), int() of such values are "
         "precomputed by the standard library and handed to the model as tokens/tables",
         "blinker dispatch modelled as appending to a log",
+        "natives of unusual types (UserString, str / int / float / Decimal / date subclasses with their own __str__, IntEnum members, "
+        "Fraction, aware time, bytes, bytearray): the Lean model holds plain natives only and is given, per case, a PROJECTION (case key "
+        "`proj`): the plain native whose documented outcome for this kind (ref_set) equals that of the exotic input - its characters "
+        "for a str subclass, int(x) / float(x) / the base-type value for numeric kinds, the plain date / naive time for temporal kinds, "
+        "else an object seen only through str(x) and bool(x) (the model's `other`).  The subclass identity and a tzinfo of a STORED "
+        "value / raw are not visible to the model (scalars_g6.model_view); the oracle sees and asserts them on the real objects.  Where no "
+        "projection has the same documented outcome (evidence tag exotic-oracle-only, about 10% of the exotic cases: text-likes that are "
+        "no str handed to Boolean / Temporal kinds, bytes whose failure text is their repr) the case runs through the real code and the "
+        "oracle only",
     ]
     assumptions = [
-        "inputs are None, str, int, bool, float, Decimal, naive date/time/datetime, or an object with only str() and bool(); "
-        "bytes are outside the property's quantifier (None/text/number/boolean/native-temporal) and NOT claimed: on HEAD Date().set(b'2020-01-02') "
-        "and JoinedString().set(b'a,b') raise TypeError and Integer().set(b' 12 ') gives 12; no case contains bytes (a value that is not one of the "
-        "listed natives makes has_model False); tz-aware times and subclasses with overridden dunder methods are outside the model too",
+        "inputs are None, str, int, bool, float, Decimal, naive date/time/datetime, an object with only str() and bool(), and (scalar cases; "
+        "h15) natives of unusual but legitimate types: collections.UserString, a str subclass with its own __str__ and a class-keeping strip(), "
+        "int / float / Decimal / date subclasses with their own __str__, IntEnum members, Fraction, datetime handed to a Date, time with tzinfo, "
+        "bytes, bytearray; their texts padded with ASCII and non-ASCII whitespace.  Container (tree) cases keep to the plain natives",
+        "what the reference asserts for them, from the documentation: String - 'coerced with str() and stripped if strip' (a str instance of "
+        "any subclass is text already: its characters count, not its __str__; the CLASS of the stored text is not asserted); numbers - "
+        "type_(value), an instance of type_ exactly, text by the format; Boolean - synonyms for str instances, bool(value) for non-text; "
+        "temporals - an instance of type_ (subclass instances too) is returned unchanged, a str is parsed, anything else is unadaptable.  NOT "
+        "determined by the documentation and NOT asserted (flag / value / text; 'never raises', raw, signal and re-set clauses still are): "
+        "whether a UserString / bytes / bytearray counts as 'text' for Boolean ('if value is text') and Temporal ('if a string') - on HEAD "
+        "they are non-text (Boolean: bool(x); Temporal: unadaptable, except bytes: KF-C04-e)",
+        "bytes are outside the property's quantifier (None/text/number/boolean/native-temporal): Date().set(b'2020-01-02') raises TypeError on HEAD "
+        "(recorded as KF-C04-e with a class predicate, c04_findings.json); JoinedString().set(b'a,b') raises too (not generated: tree cases have "
+        "no bytes); Integer().set(b' 12 ') gives 12 as type_(value) does",
+        "re-set clause 'the same .value': compared as values of the base type (a date subclass instance equals the plain date with the same "
+        "fields); an aware time differs from the naive time its text reads back as (filed under KF-C04-b: the text drops the offset)",
         "a None value has text '' by documentation; the literal value clause for None is checked and fails for the kinds that adapt '' "
         "(recorded as KF-C04-d), the theorem reset_value_partial is for values other than None",
         "Enum/Constrained valid_values contain None/str/int/bool/date/time natives (Python == on them)",
@@ -928,7 +1002,10 @@ class C04(Property):
             "membership predicates) x an input drawn 60% from a kind-appropriate mostly-valid pool (padded, transliterated to random Unicode Nd "
             "decades, '+'/underscore forms, mutated date/time texts) and 40% from the menagerie (None, {NT} texts incl. empty/whitespace/"
             "exponent/NaN/inf/underscore/full-width/4300- and 4301-digit strings, out-of-range dates, ints up to 10**5000, bools, 17 floats, 15 "
-            "Decimals incl. sNaN and 1E+5000-class values, 12 native date/time/datetime values, objects with only str()/bool()); 30% of scalar "
+            "Decimals incl. sNaN and 1E+5000-class values, 12 native date/time/datetime values, objects with only str()/bool()); 15% of the scalar "
+            "cases hand the kind a native of an unusual type (scalars_g6.random_exotic: 75% suiting the kind - text-likes UserString / object with "
+            "__str__ / str subclass / bytes / bytearray whose text suits the kind, numeric subclasses / IntEnum / Fraction / bool for numbers and "
+            "booleans, date subclass / datetime / aware time for temporals - 25% any; padded with ASCII and non-ASCII whitespace 77%); 30% of scalar "
             "cases first set() another value on the same element. 30% container cases: random schema of depth <= 3 over List/Array, Dict "
             "(subset/duck policy), DateYYYYMMDD, JoinedString (4 separators, prune on/off) and 8 scalar kinds, type-directed mostly-valid "
             "input plus 15% hostile shapes (non-iterables, strings, 2-character strings as pairs, pair lists with duplicate and unknown keys), "
@@ -965,6 +1042,45 @@ class C04(Property):
             scalar_case(K_int(True), "1" * (S.MAXD + 1)),
             scalar_case({"k": "date", "strip": False}, "2020-01-02\n"),
             scalar_case(K_int(True), decimal.Decimal("1E+5000")),      # KF-C04-a through int(Decimal)
+        ]
+        import collections
+        import fractions
+        tz = datetime.timezone(datetime.timedelta(minutes=60))
+        cases += [
+            # seeded C03-string-adapt-nonstr-unstripped: text obtained through str() is stripped like any other text
+            scalar_case(K_string(True), collections.UserString("  Biff  ")),
+            scalar_case(K_string(True), S.Other("Hello, world\n", True)),
+            scalar_case(K_enum(K_string(True), ["a", "b", ""]), collections.UserString(" a\u00a0")),
+            scalar_case(K_string(True), S.TextSub("\u3000x ", "shown")),           # a str subclass is text: its characters count
+            scalar_case(K_string(False), S.IntSub(5, " five ")),                   # str() of a number with its own __str__
+            scalar_case(K_string(True), b" raw "),
+            # seeded C04-number-adapt-isinstance-shortcut / C01-number-adapt-keeps-subclass / C04-number-adapt-keeps-bool:
+            # a number is an instance of type_ EXACTLY (type_(value)), its text the format's
+            scalar_case(K_int(True), True),
+            scalar_case(K_int(True), S.IntSub(5, " five ")),
+            scalar_case(K_int(True, 4), S.int_enum(7)),
+            scalar_case(K_int(False), S.IntSub(-5, "-5")),
+            scalar_case({"k": "float", "signed": True}, S.FloatSub(1.5, "one and a half")),
+            scalar_case({"k": "decimal", "signed": True}, S.DecSub("1.50", " 1.5 ")),
+            scalar_case({"k": "float", "signed": True}, fractions.Fraction(7, 2)),
+            scalar_case(K_int(True), fractions.Fraction(-7, 2)),
+            scalar_case({"k": "decimal", "signed": True}, fractions.Fraction(7, 2)),      # Decimal(Fraction): TypeError -> unadaptable
+            scalar_case(K_int(True), collections.UserString(" 12 ")),
+            scalar_case(K_int(True), b" 12 "),
+            scalar_case({"k": "float", "signed": True}, bytearray(b"1.5\n")),
+            scalar_case(K_enum(K_int(True), [1, 2, True, 0]), S.IntSub(2, "two")),
+            # seeded C18-temporal-adapt-exact-type: instances of type_ (subclass instances too) are accepted as they are
+            scalar_case({"k": "date", "strip": True}, S.DateSub(2020, 1, 2, " the day ")),
+            scalar_case(K_enum({"k": "date", "strip": True}, [datetime.date(2020, 1, 2), None]), S.DateSub(2020, 1, 2, "x")),
+            scalar_case({"k": "datetime", "strip": True}, S.DateSub(2020, 1, 2, "2020-01-02 00:00:00")),   # not a datetime
+            scalar_case({"k": "time", "strip": True}, datetime.time(1, 2, 3, tzinfo=tz)),         # KF-C04-b: the offset is dropped
+            scalar_case({"k": "date", "strip": True}, S.TextSub(" 2020-01-02 ", "garbage")),
+            # text-likes that are no str: Boolean / Temporal documentation does not say (flag not asserted)
+            scalar_case({"k": "boolean_default"}, collections.UserString("off")),
+            scalar_case({"k": "date", "strip": True}, collections.UserString("2020-01-02")),
+            scalar_case({"k": "boolean_default"}, S.TextSub("off", "on")),
+            # KF-C04-e: bytes handed to a Temporal raise TypeError (str pattern on bytes)
+            scalar_case({"k": "date", "strip": True}, b"2020-01-02"),
         ]
         str_f = {"s": "scalar", "kind": K_string(True)}
         int_f = {"s": "scalar", "kind": K_int(True)}
@@ -1019,9 +1135,21 @@ class C04(Property):
         for kind in KINDS:
             for x in [None, "", True, False, 0, 1]:
                 yield scalar_case(kind, x)
+        import collections
+        import fractions
+        for kind in KINDS:
+            for x in [collections.UserString(" 1 "), collections.UserString("\u3000on\n"), S.TextSub(" 1\t", "<shown>"), S.TextSub("", " x "),
+                      S.IntSub(1, " one "), S.IntSub(0, ""), S.int_enum(2), S.FloatSub(1.0, "1"), S.DecSub("1", " 1"),
+                      fractions.Fraction(1, 2), S.DateSub(2020, 1, 2, " 2020-01-02 "), datetime.datetime(2020, 1, 2, 3, 4, 5),
+                      datetime.time(1, 2, 3, tzinfo=datetime.timezone.utc), b" 1 ", bytearray(b"on"), S.Other(" 1\x85", True)]:
+                if type(x) is bytes and S.base_kind(kind)["k"] in ("date", "time", "datetime"):
+                    continue            # KF-C04-e (one corpus witness; generated cases reach it too)
+                yield scalar_case(kind, x)
 
     exhaustive_note = ("all 680 Nd characters as Integer text, every Nd decade inside a Date and a Time text, all 29 whitespace "
-                       "characters around String/Integer/Date texts, every kind configuration x {None, '', True, False, 0, 1}")
+                       "characters around String/Integer/Date texts, every kind configuration x {None, '', True, False, 0, 1}, every kind "
+                       "configuration x 16 natives of unusual types (UserString, str/int/float/Decimal/date subclasses with their own "
+                       "__str__, IntEnum, Fraction, datetime, aware time, bytes, bytearray, object with __str__ only; padded)")
 
     def generate(self, rng, n, tier):
         for _ in range(n):
@@ -1033,6 +1161,10 @@ class C04(Property):
                 yield tree_case(sch, rand_input(rng, sch), pre)
                 continue
             kind = rng.choice(KINDS)
+            if rng.random() < 0.15:
+                # natives of unusual but legitimate types (text-likes, numeric / temporal subclasses, bytes; padded)
+                yield scalar_case(kind, S.random_exotic(rng, kind if rng.random() < 0.75 else None))
+                continue
             if rng.random() < 0.6:
                 x = appropriate_input(rng, kind)
             else:
@@ -1048,15 +1180,21 @@ class C04(Property):
         if '"unmodelled"' in __import__("json").dumps(case):      # bytes or any other value outside the native universe
             return False
         if case["mode"] != "tree":
-            return True
+            # an exotic native is inside the model only through its projection (see scalar_case)
+            return case["x"] is None or case["x"]["t"] not in S.EXOTIC_TAGS or "proj" in case
         return shape_ok(case["schema"], case["x"]) and (case.get("pre") is None or shape_ok(case["schema"], case["pre"]))
+
+    def model_input(self, case, obs):
+        if case["mode"] == "scalar" and "proj" in case:
+            return dict(case, x=case["proj"])
+        return case
 
     def run_impl(self, case):
         if case["mode"] == "tree":
             return tree_obs(case)
         cls, el = fresh_scalar(case)
         x = S.nat_to_py(case["x"])
-        first, _ = scalar_obs(el, x)
+        first, _ = scalar_obs(el, x, case.get("proj"))
         reset = None
         if first["exc"] is None and first["flag"]:
             el2 = cls()
@@ -1101,11 +1239,18 @@ class C04(Property):
             want_flag, want_value, want_u = ref_set(kind, x)
         except ValueError:
             want_flag = None              # an int beyond the int->str limit: set() would have raised
+        except _Undetermined:
+            want_flag = None              # the documentation does not determine the outcome for this input: not asserted
+        if not isinstance(flag, bool):
+            fails.append({"clause": "flag-is-bool", "expected": "bool", "observed": repr(flag)})
         if want_flag is not None:
             if flag is not want_flag:
                 fails.append({"clause": "flag-iff-adapted", "expected": want_flag, "observed": flag})
             elif flag is True:
-                if not _same(el.value, want_value):
+                # the class of a text that came in as an instance of a str subclass is not asserted, its characters are;
+                # numbers are instances of type_ exactly; temporals are the input itself
+                textual = S.base_kind(kind)["k"] == "string"
+                if not (_same(S.unsub(el.value), S.unsub(want_value)) if textual else _same(el.value, want_value)):
                     fails.append({"clause": "value-is-adapted", "expected": _show(want_value), "observed": _show(el.value)})
                 if el.u != want_u or not isinstance(el.u, str):
                     fails.append({"clause": "success-u-is-text-of-value", "expected": want_u, "observed": el.u})
@@ -1122,7 +1267,7 @@ class C04(Property):
             _, adapted_sig, val_at, u_at = own[0]
             if adapted_sig is not flag:
                 fails.append({"clause": "signal-adapted-is-flag", "expected": flag, "observed": adapted_sig})
-            if val_at != S.py_to_nat(el.value, full=False) or u_at != el.u:
+            if val_at != S.py_to_nat(S.model_view(el.value), full=False) or u_at != el.u:
                 fails.append({"clause": "signal-after-final", "expected": [_show(el.value), el.u], "observed": [val_at, u_at]})
         # re-setting the text
         if flag is True:
@@ -1133,10 +1278,10 @@ class C04(Property):
             else:
                 if el2.u != el.u:
                     fails.append({"clause": "reset-u", "expected": el.u, "observed": el2.u, "first_value": _show(el.value)})
-                if exact_kind(kind) and not _same(el2.value, el.value):
+                if exact_kind(kind) and not _same(S.unsub(el2.value), S.unsub(el.value)):
                     # the statement makes no exception for None: its text '' may read back as a value
                     fails.append({"clause": "reset-value" if el.value is not None else "reset-value-none",
-                                  "expected": _show(el.value), "observed": _show(el2.value), "first_u": el.u})
+                                  "expected": _show(S.unsub(el.value)), "observed": _show(S.unsub(el2.value)), "first_u": el.u})
         return fails
 
     def tree_oracle(self, case):
@@ -1231,6 +1376,12 @@ class C04(Property):
                     and failure.get("culprit_huge")
                     and failure.get("site") in ("Scalar.set", "String.adapt", "Number.serialize")):
                 return "KF-C04-a"
+            # KF-C04-e: `bytes` handed to a Date / Time / DateTime (bare or inside Enum / Constrained): Temporal.adapt sends
+            # them to a str regex
+            if (case["mode"] == "scalar" and failure.get("observed") == "TypeError" and failure.get("site") == "Temporal.adapt"
+                    and "bytes-like" in failure.get("message", "") and (case["x"] or {}).get("t") == "bytes"
+                    and S.base_kind(case["kind"])["k"] in ("date", "time", "datetime")):
+                return "KF-C04-e"
             return None
         if case["mode"] == "tree":
             return None
@@ -1251,7 +1402,14 @@ class C04(Property):
                 f = ref_set(kind, x)
             except ValueError:
                 return None
-            if not f[0] or f[2] != first_u or _show(f[1]) != first_v:
+            except _Undetermined:
+                # a text-like that is no str handed to a Boolean: the documentation does not say which value it gets; the
+                # finding's prediction then starts from the first outcome OBSERVED, which must be a coherent one (a bool
+                # and the kind's text for it)
+                f = None
+                if not any(first_v == _show(b) and first_u == ref_serialize(kind, b) for b in (True, False)):
+                    return None
+            if f is not None and (not f[0] or f[2] != first_u or _show(f[1]) != first_v):
                 return None                                              # the first outcome is not the documented one
             sim = sim_set_text(kind, first_u) if isinstance(first_u, str) else None
             if sim is not None and sim[0]:
@@ -1288,6 +1446,25 @@ class C04(Property):
         t = ["kind=" + kind_tag(case["kind"]), "input=" + ("none" if x is None else x["t"])]
         if case.get("has_pre"):
             t.append("scalar-preset")
+        if x is not None and x["t"] in S.EXOTIC_TAGS + ("other",):
+            xv = S.nat_to_py(x)
+            if x["t"] != "other":
+                t.append("exotic-in-model" if "proj" in case else "exotic-oracle-only")
+            try:
+                ref_set(case["kind"], xv)
+                t.append("exotic-ref-asserted")
+            except _Undetermined:
+                t.append("exotic-ref-undetermined")
+            except ValueError:
+                pass
+            try:
+                shown = xv.decode("latin-1") if isinstance(xv, (bytes, bytearray)) else (_content(xv) if isinstance(xv, str) else str(xv))
+                if shown != shown.strip():
+                    t.append("exotic-padded")
+                    if any(ord(c) > 127 for c in shown[:1] + shown[-1:]):
+                        t.append("exotic-padded-non-ascii")
+            except Exception:  # noqa: BLE001
+                pass
         if s["exc"]:
             t.append("exc=" + s["exc"])
         else:
